@@ -126,8 +126,7 @@ def indexOf (A : Arith α β) (cfg : PCfg α) (db : List (C08.DbPep α)) : Optio
 def worldOf (A : Arith α β) (cfg : PCfg α) (db : List (C08.DbPep α)) : Option (World α) :=
   (indexOf A cfg db).map fun idx => { peps := db.toArray, idx := idx, info := infoOf A cfg db }
 
-/-- `Parameters::build`: `none` = the real code panics (`bucket_size = 0`); a FASTA without any digest gives the
-    world over the empty database -/
+/-- `Parameters::build`: `none` = the real code panics (no digest at all, or `bucket_size = 0`) -/
 def buildWorld (A : Arith α β) (cfg : PCfg α) (targets : List (C05.Seq × C05.Seq)) : Option (World α) :=
   (C08.buildDb cfg.db targets).bind (worldOf A cfg)
 
